@@ -154,6 +154,29 @@ def run():
                               ["SPECIFICATION SpecUnfair", "PROPERTY Progress", "PROPERTY Quiesce"], workers=2, timeout=300)
     results["liveness_needs_fairness"] = "Temporal properties" in text and "violated" in text
     log("[selftest] BookLive without fairness: %s" % ("Progress / Quiesce refuted (negative control)" if results["liveness_needs_fairness"] else "NOT refuted"))
+    # ---- 3c. the inductive check can fail: an engine that queues in FRONT of equal prices is refuted by Apalache, and a
+    #          BookInd.tla that differs from BookOps.tla is refuted by the TLC lock-step ----------------------------------
+    src = open(os.path.join(core.SPEC, "BookInd.tla")).read()
+    old = "~Better(s, p, tab[q[i]].price)})"
+    if old not in src:
+        raise ToolError("selftest: BookInd mutation no longer applies")
+    mut = src.replace(old, "Better(s, tab[q[i]].price, p)})").replace("MODULE BookInd", "MODULE BookIndMut")
+    with open(os.path.join(core.SPEC, "BookIndMut.tla"), "w") as f:
+        f.write(mut)
+    try:
+        oc, wall, tail = core.apalache_check("selftest_apa_mut", "BookIndMut", ["--cinit=ConstInit3", "--init=IndInit", "--inv=IndInv", "--length=1"], timeout=900)
+    finally:
+        os.remove(os.path.join(core.SPEC, "BookIndMut.tla"))
+    results["apalache_refutes_insert_in_front"] = oc == "Error"
+    log("[selftest] Apalache inductive step on the mutated engine (insert in front of equal prices): %s (%.0fs)" % (oc, wall))
+    core.SPEC_OVERLAY = {"BookInd.tla": src.replace(old, "Better(s, tab[q[i]].price, p)})")}
+    try:
+        tl, text = core.tlc_check("selftest_lockstep_mut", "BookIndMC", dict(N=3, Tick=1, MaxPrice=MAXPRICE, Prices=[10, 11], Vols=[1, 2], MaxOps=4),
+                                  ["INIT MInit", "NEXT MNext", "INVARIANT Inv_Agree"], workers=4, timeout=300)
+    finally:
+        core.SPEC_OVERLAY = {}
+    results["lockstep_refutes_divergent_bookind"] = "Inv_Agree is violated" in text
+    log("[selftest] BookIndMC with the mutated BookInd: %s" % ("Agree refuted" if results["lockstep_refutes_divergent_bookind"] else "NOT refuted"))
     # ---- 4. vacuity: every action of the all-actions generator occurs in the histories actually replayed ----
     from .runner import Check
     from . import props
